@@ -10,6 +10,9 @@
     - transport/websocket/server.go:Handshake  readLimit > 0 ? SetReadLimit(readLimit) : SetReadLimit(-1)
     - transport/websocket/client.go:Handshake  maxPayload > 0 ? SetReadLimit(maxPayload) : SetReadLimit(-1)
     - transport/polling/client.go:poll         DecodePayloads(io.ReadAll(body)): no limit
+    - transport/webtransport/packet.go:nextPacket   server: declared frame length over the limit ->
+                                                ErrLimitReached before the payload is read (C11's fix);
+                                                client: no limit
     and the two library readers the decisions rest on, as small-step relations over every way the
     bytes of one message can be cut into reads:
     - nhooyr.io/websocket read.go:limitReader.Read  (SetReadLimit(n) stores n+1)
@@ -87,15 +90,21 @@ Definition accepts (len : Z) (lim : option Z) : bool := o_accept (ws_outcome lim
 
 Inductive direction := C2S | S2C.
 (** For S2C the three polling variants are the same thing: the body of a GET response. *)
-Inductive transport := PostCL | PostChunked | WS | Poll.
+Inductive transport := PostCL | PostChunked | WS | Poll | WT.
+
+(** WebTransport frame on the server: the header declares the length; over the limit it is refused
+    before a byte of the payload is read or allocated (limitedReader.exceeds in nextPacket). *)
+Definition wt_decision (size max : Z) : outcome :=
+  if (max >? 0) && (size >? max) then rejected (-1) 0 else accepted (-1) size.
 
 Definition decide (c : cfg) (d : direction) (t : transport) (size : Z) : outcome :=
   match d, t with
   | C2S, PostCL => post_decision (Some size) size (effective_max c)
   | C2S, (PostChunked | Poll) => post_decision None size (effective_max c)
   | C2S, WS => ws_outcome (ws_read_limit (effective_max c)) size
+  | C2S, WT => wt_decision size (effective_max c)
   | S2C, WS => ws_outcome (ws_read_limit (announced_max_payload c)) size
-  | S2C, _ => accepted (-1) size     (* polling client: no limit on a response body *)
+  | S2C, _ => accepted (-1) size     (* polling and webtransport clients: no limit *)
   end.
 
 (** * A session: messages one after the other on one transport
